@@ -819,6 +819,10 @@ def canonicalise(sources: dict[str, str]) -> tuple[Program, dict]:
     if pre0.parse_errors:
         return pre0, report
     trees0 = {m.path: m.tree for m in pre0.modules.values()}
+    from . import canon_decl
+    report['dataclass_inits_written'] = sum(canon_decl.desugar_dataclasses(t) for t in trees0.values())
+    report['namedtuple_uses_flattened'] = canon_decl.desugar_namedtuples(trees0)
+    report['new_constants_inlined'] = sum(canon_decl.inline_new_constants(t) for t in trees0.values())
     for tree in trees0.values():
         for n in ast.walk(tree):
             if isinstance(n, (ast.FunctionDef, ast.AsyncFunctionDef)):
@@ -832,6 +836,9 @@ def canonicalise(sources: dict[str, str]) -> tuple[Program, dict]:
     for tree in trees.values():
         for n in ast.walk(tree):
             if isinstance(n, (ast.FunctionDef, ast.AsyncFunctionDef)):
+                report['joined_tails_sunk'] = report.get('joined_tails_sunk', 0) + sink_joined_tails(n)
+                report['hash_updates_folded'] = report.get('hash_updates_folded', 0) + fold_hash_updates(n)
+                report['counter_updates_folded'] = report.get('counter_updates_folded', 0) + fold_counter_updates(n)
                 for _ in range(3):
                     a = fold_accumulator_loops(n)
                     b = fold_dict_builders(n)
@@ -845,3 +852,162 @@ def canonicalise(sources: dict[str, str]) -> tuple[Program, dict]:
     prog = Program(sources, trees=trees)
     prog.canon_report = report
     return prog, report
+
+
+# ----------------------------------------------------------------------------------------
+# P5: a joined tail statement is sunk back into the branches that feed it
+#
+#     try: ... except E as ex: outcome = ex            try: ... except E as ex: yield (task, ex)
+#     else: outcome = r.meta                    ->     else: yield (task, r.meta)
+#     yield (task, outcome)
+#
+# (only when every branch that can fall through ends with `v = <expr>`, the tail is a simple statement, `v` is read
+# nowhere else, and - for a try statement - there is an else clause and no finally, so that exception coverage of the
+# tail does not change)
+
+def _terminates(block: list[ast.stmt]) -> bool:
+    return bool(block) and isinstance(block[-1], (ast.Raise, ast.Return, ast.Continue, ast.Break))
+
+
+def _leaves(st: ast.stmt) -> Optional[list[list[ast.stmt]]]:
+    if isinstance(st, ast.If):
+        out = []
+        for blk in (st.body, st.orelse):
+            if not blk:
+                return None              # no else: one path falls through without an assignment
+            if len(blk) == 1 and isinstance(blk[0], ast.If):
+                sub = _leaves(blk[0])
+                if sub is None:
+                    return None
+                out.extend(sub)
+            else:
+                out.append(blk)
+        return out
+    if isinstance(st, ast.Try):
+        if st.finalbody or not st.orelse or not st.handlers:
+            return None
+        return [h.body for h in st.handlers] + [st.orelse]
+    return None
+
+
+def sink_joined_tails(fn_node: ast.AST) -> int:
+    n = 0
+    changed = True
+    while changed:
+        changed = False
+        for _owner, _fld, blk in _blocks(fn_node):
+            for i in range(len(blk) - 1):
+                s, t = blk[i], blk[i + 1]
+                leaves = _leaves(s)
+                if leaves is None or not isinstance(t, (ast.Expr, ast.Assign)):
+                    continue
+                if any(isinstance(x, (ast.Lambda, ast.ListComp, ast.DictComp, ast.SetComp, ast.GeneratorExp)) for x in ast.walk(t)):
+                    continue
+                open_leaves = [lf for lf in leaves if not _terminates(lf)]
+                if not open_leaves:
+                    continue
+                last = [lf[-1] for lf in open_leaves]
+                if not all(isinstance(a, ast.Assign) and len(a.targets) == 1 and isinstance(a.targets[0], ast.Name) for a in last):
+                    continue
+                names = {a.targets[0].id for a in last}
+                if len(names) != 1:
+                    continue
+                v = next(iter(names))
+                loads_t = [x for x in ast.walk(t) if isinstance(x, ast.Name) and x.id == v and isinstance(x.ctx, ast.Load)]
+                loads_all = [x for x in ast.walk(fn_node) if isinstance(x, ast.Name) and x.id == v and isinstance(x.ctx, ast.Load)]
+                stores_all = [x for x in ast.walk(fn_node) if isinstance(x, ast.Name) and x.id == v and isinstance(x.ctx, ast.Store)]
+                decls = [x for x in ast.walk(fn_node) if isinstance(x, ast.AnnAssign) and x.value is None and isinstance(x.target, ast.Name) and x.target.id == v]
+                if not loads_t or len(loads_t) != len(loads_all) or len(stores_all) != len(last) + len(decls):
+                    continue
+                if isinstance(t, ast.Assign) and any(isinstance(x, ast.Name) and x.id == v for tg in t.targets for x in ast.walk(tg)):
+                    continue
+                for lf, a in zip(open_leaves, last):
+                    t2 = _Subst({v: a.value}).visit(copy.deepcopy(t))
+                    ast.copy_location(t2, a)
+                    lf[-1] = t2
+                del blk[i + 1]
+                for d in decls:
+                    for _o2, _f2, b2 in _blocks(fn_node):
+                        if d in b2:
+                            b2.remove(d)
+                n += 1
+                changed = True
+                break
+            if changed:
+                break
+    return n
+
+
+# ----------------------------------------------------------------------------------------
+# P6: `h = hashlib.sha1(); h.update(E); ... h.hexdigest()`  ->  `hashlib.sha1(E).hexdigest()`  (exactly one update)
+
+def fold_hash_updates(fn_node: ast.AST) -> int:
+    n = 0
+    for _owner, _fld, blk in _blocks(fn_node):
+        for i, st in enumerate(list(blk)):
+            if not (isinstance(st, ast.Assign) and len(st.targets) == 1 and isinstance(st.targets[0], ast.Name) and isinstance(st.value, ast.Call)
+                    and (dotted(st.value.func) or '').startswith('hashlib.') and not st.value.args and not st.value.keywords):
+                continue
+            h = st.targets[0].id
+            ups = [s for s in blk if isinstance(s, ast.Expr) and isinstance(s.value, ast.Call) and isinstance(s.value.func, ast.Attribute)
+                   and s.value.func.attr == 'update' and isinstance(s.value.func.value, ast.Name) and s.value.func.value.id == h and len(s.value.args) == 1]
+            loads = [x for x in ast.walk(fn_node) if isinstance(x, ast.Name) and x.id == h and isinstance(x.ctx, ast.Load)]
+            stores = [x for x in ast.walk(fn_node) if isinstance(x, ast.Name) and x.id == h and isinstance(x.ctx, ast.Store)]
+            if len(ups) != 1 or len(stores) != 1 or blk.index(ups[0]) < i:
+                continue
+            arg = ups[0].value.args[0]
+            ctor = ast.Call(func=st.value.func, args=[arg], keywords=[])
+            ast.copy_location(ctor, st.value)
+            ok = True
+            uses = [x for x in loads if x is not ups[0].value.func.value]
+            if not uses:
+                continue
+
+            class R(ast.NodeTransformer):
+                def visit_Name(self, node: ast.Name):
+                    if node.id == h and isinstance(node.ctx, ast.Load):
+                        return copy.deepcopy(ctor)
+                    return node
+            blk.remove(ups[0])
+            blk.remove(st)
+            for s2 in blk:
+                R().visit(s2)
+            if ok:
+                n += 1
+            break
+    if n:
+        ast.fix_missing_locations(fn_node)
+    return n
+
+
+# ----------------------------------------------------------------------------------------
+# P7: counter updates spelled out:  `d[k] = d.get(k, 0) + e`  /  `d[k] = d[k] + e`   ->   `d[k] += e`
+
+def fold_counter_updates(fn_node: ast.AST) -> int:
+    n = 0
+    for _owner, _fld, blk in _blocks(fn_node):
+        for i, st in enumerate(blk):
+            if not (isinstance(st, ast.Assign) and len(st.targets) == 1 and isinstance(st.targets[0], ast.Subscript)
+                    and isinstance(st.value, ast.BinOp) and isinstance(st.value.op, ast.Add)):
+                continue
+            tgt = st.targets[0]
+            if not _pure_alias_value(tgt.value) or not isinstance(tgt.value, (ast.Name, ast.Attribute)):
+                continue
+            for cur, inc in ((st.value.left, st.value.right), (st.value.right, st.value.left)):
+                same = False
+                if isinstance(cur, ast.Subscript) and ast.dump(cur.value) == ast.dump(tgt.value) and ast.dump(cur.slice) == ast.dump(tgt.slice):
+                    same = True
+                elif isinstance(cur, ast.Call) and isinstance(cur.func, ast.Attribute) and cur.func.attr == 'get' and len(cur.args) == 2 \
+                        and ast.dump(cur.func.value) == ast.dump(tgt.value) and ast.dump(cur.args[0]) == ast.dump(tgt.slice) \
+                        and isinstance(cur.args[1], ast.Constant) and cur.args[1].value == 0 and not isinstance(cur.args[1].value, bool):
+                    same = True
+                if same:
+                    t2 = copy.deepcopy(tgt)
+                    new = ast.AugAssign(target=t2, op=ast.Add(), value=inc)
+                    ast.copy_location(new, st)
+                    blk[i] = new
+                    n += 1
+                    break
+    if n:
+        ast.fix_missing_locations(fn_node)
+    return n
